@@ -176,7 +176,12 @@ let run_case line =
    | M.Err why -> Buffer.add_string b ("|SC=ERR:" ^ ocaml_string why)
    | M.Ok ms2 ->
      Buffer.add_string b "|SC=ok";
-     Buffer.add_string b (if ms2 = List.map M.tnorm_module ms then "|TAST=tnorm" else "|TAST=differs");
+     (* conclusion of text_module_fixpoint (labels already in first-occurrence order) / of text_module_scan_relabel *)
+     Buffer.add_string b (if ms2 = List.map M.tnorm_module ms then "|TAST=tnorm"
+                          else match M.relabel_ctx ms with
+                            | Some msr when ms2 = List.map M.tnorm_module msr -> "|TAST=relabel"
+                            | Some _ -> "|TAST=differs"
+                            | None -> "|TAST=norelabel");
      let t2 = text ms2 in
      if t2 = t0 then Buffer.add_string b "|T2==" else Buffer.add_string b ("|T2=" ^ hex_of_bytes t2);
      (match M.scan_ctx M.parseF M.parseD M.parseLD t2 with
